@@ -82,18 +82,24 @@ func genOpts(rng *rand.Rand, tier string, mode string) sim.Opts {
 			mode = "converge"
 		}
 	}
+	// node ids: 1..n, or (one run in five) spread over the whole 64-bit range like hashed member ids
+	idMul := uint64(1)
+	if rng.Intn(5) == 0 {
+		idMul = sim.SpreadIDMul
+	}
 	if mode == "nodefuzz" {
 		o.Fuzz = 150 + rng.Intn(250)
+		o.IDMul = idMul
 		return o
 	}
 	nv := []int{1, 2, 3, 3, 3, 3, 4, 5, 5}[rng.Intn(9)]
 	for i := 1; i <= nv; i++ {
-		o.Voters = append(o.Voters, uint64(i))
+		o.Voters = append(o.Voters, uint64(i)*idMul)
 	}
 	if rng.Intn(4) == 0 && nv < 5 {
 		nl := 1 + rng.Intn(min(2, 5-nv))
 		for i := 0; i < nl; i++ {
-			o.Learners = append(o.Learners, uint64(nv+1+i))
+			o.Learners = append(o.Learners, uint64(nv+1+i)*idMul)
 		}
 	}
 	o.Steps = 300 + rng.Intn(300)
@@ -174,6 +180,12 @@ func genOpts(rng *rand.Rand, tier string, mode string) sim.Opts {
 		o.MaxSizePerMsg, o.MaxCommittedSizePerReady = 0, 0
 		o.MaxInflightBytes = 0
 	}
+	switch mode {
+	case "figure8", "asynccrash", "single": // these modes chose literal ids above
+		for i := range o.Voters {
+			o.Voters[i] *= idMul
+		}
+	}
 	// runs with static membership are also replayed through the abstract protocol Spec/Raft.lean
 	o.SpecCheck = !o.ConfChanges
 	return o
@@ -183,7 +195,7 @@ func genOpts(rng *rand.Rand, tier string, mode string) sim.Opts {
 func oneRun(o sim.Opts, useModel bool) runResult {
 	var c *sim.Cluster
 	if o.Fuzz > 0 {
-		c = sim.FuzzNode(o.Seed, o.Fuzz)
+		c = sim.FuzzNode(o.Seed, o.Fuzz, o.IDMul)
 	} else {
 		c = sim.NewCluster(o)
 		c.Run()
@@ -249,7 +261,7 @@ func explain(o sim.Opts, line int) *mismatch {
 	var c *sim.Cluster
 	if o.Fuzz > 0 {
 		sim.FuzzKeepText = true
-		c = sim.FuzzNode(o.Seed, o.Fuzz)
+		c = sim.FuzzNode(o.Seed, o.Fuzz, o.IDMul)
 		sim.FuzzKeepText = false
 	} else {
 		c = sim.NewCluster(o)
@@ -457,8 +469,16 @@ func main() {
 	if !*noModel {
 		var sample []sim.Opts
 		want := map[int64]string{}
+		// runs on which the correspondence broke go first: if the implementation became order- or
+		// time-dependent there, the second execution turns the broken correspondence into a concrete history
+		for _, rr := range all {
+			if (rr.Mismatch != nil || rr.SpecFail != nil) && len(sample) < 12 && len(rr.Violations) == 0 && len(rr.Opts.Script) == 0 && want[rr.Opts.Seed] == "" {
+				sample = append(sample, rr.Opts)
+				want[rr.Opts.Seed] = rr.Digest
+			}
+		}
 		for i, rr := range all {
-			if i%12 == 0 && len(sample) < 40 && len(rr.Violations) == 0 && len(rr.Opts.Script) == 0 {
+			if i%12 == 0 && len(sample) < 40 && len(rr.Violations) == 0 && len(rr.Opts.Script) == 0 && want[rr.Opts.Seed] == "" {
 				sample = append(sample, rr.Opts)
 				want[rr.Opts.Seed] = rr.Digest
 			}
@@ -567,6 +587,9 @@ func summarise(res *report.Result, all []runResult, expected int) {
 		}
 		if rr.Opts.Fuzz > 0 {
 			res.Stats["runs_nodefuzz"]++
+		}
+		if rr.Opts.IDMul > 1 || (len(rr.Opts.Voters) > 0 && rr.Opts.Voters[0] > 1<<32) {
+			res.Stats["runs_spread_ids"]++
 		}
 		if len(res.Samples) < 3 {
 			b, _ := json.Marshal(rr.Opts)
